@@ -789,4 +789,65 @@ theorem makeHeaderLimit_min (group : List Nat) : headerOK group (makeHeaderLimit
     obtain ⟨hx1, hx2⟩ := List.mem_filter.mp hx
     exact b x hx1 (by simpa using hx2)
 
+/-! ### the wire spelling of the request path -/
+
+theorem forall_uint8 (p : UInt8 → Bool) (h : ∀ n : Fin 256, p (UInt8.ofNat n.val) = true) (b : UInt8) : p b = true := by
+  have := h ⟨b.toNat, b.toNat_lt⟩
+  simpa using this
+
+set_option maxRecDepth 100000 in
+theorem spell_triplet (up : Bool) (c : UInt8) :
+    isHexDigit (hexDigit up (c.toNat / 16)) = true ∧ isHexDigit (hexDigit up (c.toNat % 16)) = true ∧
+    UInt8.ofNat (hexVal (hexDigit up (c.toNat / 16)) * 16 + hexVal (hexDigit up (c.toNat % 16))) = c := by
+  have := forall_uint8 (fun c => [true, false].all fun up =>
+    isHexDigit (hexDigit up (c.toNat / 16)) && isHexDigit (hexDigit up (c.toNat % 16)) &&
+    (UInt8.ofNat (hexVal (hexDigit up (c.toNat / 16)) * 16 + hexVal (hexDigit up (c.toNat % 16))) == c)) (by decide) c
+  simp only [List.all_cons, List.all_nil, Bool.and_true, Bool.and_eq_true, beq_iff_eq] at this
+  cases up
+  · exact ⟨this.2.1.1, this.2.1.2, this.2.2⟩
+  · exact ⟨this.1.1.1, this.1.1.2, this.1.2⟩
+
+theorem unescapePath_cons_ne (c : UInt8) (t : Bytes) (h : c ≠ 37) :
+    unescapePath (c :: t) = (unescapePath t).map (c :: ·) := by
+  conv => lhs; unfold unescapePath
+  split
+  · next heq => cases heq
+  · next heq => simp at heq; exact absurd heq.1 h
+  · next heq => simp at heq; exact absurd heq.1 h
+  · next heq => simp at heq; obtain ⟨rfl, rfl⟩ := heq; rfl
+
+theorem unescapePath_triplet (up : Bool) (c : UInt8) (t : Bytes) :
+    unescapePath (37 :: hexDigit up (c.toNat / 16) :: hexDigit up (c.toNat % 16) :: t) = (unescapePath t).map (c :: ·) := by
+  obtain ⟨h1, h2, h3⟩ := spell_triplet up c
+  conv => lhs; unfold unescapePath
+  simp only [h1, h2, Bool.and_self, if_true, h3]
+
+/-- every spelling of a path decodes to that path -/
+theorem unescape_spell (ch : List (Option Bool)) (p : Bytes) : unescapePath (spell ch p) = some p := by
+  induction p generalizing ch with
+  | nil => simp [spell, unescapePath]
+  | cons c t ih =>
+    unfold spell
+    simp only []
+    split
+    · next up _ => rw [unescapePath_triplet, ih]; rfl
+    · next heq =>
+      have hc : c ≠ 37 := by
+        intro h; simp [h] at heq
+      rw [unescapePath_cons_ne c _ hc, ih]; rfl
+
+/-- a spelling without `%` is the path itself -/
+theorem unescape_plain (p : Bytes) (h : ∀ c ∈ p, c ≠ 37) : unescapePath p = some p := by
+  induction p with
+  | nil => simp [unescapePath]
+  | cons c t ih =>
+    rw [unescapePath_cons_ne c t (h c (by simp)), ih (fun x hx => h x (by simp [hx]))]; rfl
+
+theorem targetVerdict_ok (cs : Bool) (raw : List (Bytes × Nat)) (target : Bytes) (u : Under) (bufs : List Nat) :
+    targetVerdict cs raw target u.data u.endErr (serveTarget cs (buildTable raw) target u bufs) = "ok" := by
+  unfold targetVerdict serveTarget
+  cases h : unescapePath target with
+  | none => simp
+  | some p => simpa using handlerVerdict_ok cs raw p u bufs
+
 end Casket.Limits
